@@ -141,6 +141,16 @@ def gen_case(rng, tier, idx):
         cfg["keywords"] = [k for k in cfg["keywords"] if k not in pair] + pair
         rng.shuffle(cfg["keywords"])
         kinds = kinds + ["kw"]
+    if rng.random() < 0.3:
+        # a keyword that is part of the system's host name / domain: the host-name obfuscator comes first (documented
+        # order), so the names are replaced as names and the mapping lists the names that really occurred
+        short_ = cfg["fqdn"].split(".")[0]
+        comp = [short_[:max(3, len(short_) - 2)]]
+        if "." in cfg["fqdn"]:
+            comp.append(cfg["fqdn"].split(".")[1])
+        kw_ = rng.choice(comp)
+        if kw_ and not kw_.isdigit() and kw_ not in cfg["keywords"] and not any(kw_ in k or k in kw_ for k in cfg["keywords"]):
+            cfg["keywords"] = cfg["keywords"] + [kw_]
     suffixes = rng.random() < 0.5         # addresses followed by '.', ',', ':port', '/prefix'
     calls = []
     base = rng.randint(0, 10 ** 6)
